@@ -20,8 +20,10 @@ from .spec import check_outcome
 
 PROPERTY = 'C17'
 LEVEL = 'other'
-EXPLANATION = ('one extracted statement of GenerateRxnNet (the work-list update) is verified deductively for lists of up to two entries with an '
-               'abstract isomorphism relation; the closure property itself is checked by the bounded stand-in against an independent breadth-first closure')
+EXPLANATION = ('three statements of GenerateRxnNet are extracted mechanically and verified with an abstract species comparison for lists of up to two or three entries: '
+               'putting the seeds on the work list (establishes "no species twice" for any seed list), taking the next species (nothing lost, waiting list '
+               'shorter), the work-list update (invariant preserved, every new product queued once); the closure property itself is checked by the bounded '
+               'stand-in against an independent breadth-first closure')
 GEN = 'pgradd/RDkitWrapper/GenRxnNet.py'
 IS, BS = z3.IntSort(), z3.BoolSort()
 NAtoms = z3.Function('GetNumAtoms', IS, IS)
@@ -56,7 +58,8 @@ def world():
 
 def find_update_stmt():
     m, c, fn = source.find_function(GEN, 'GenerateRxnNet')
-    hits = [n for n in ast.walk(fn) if isinstance(n, ast.For) and isinstance(n.target, ast.Name) and n.target.id == 'mol1']
+    hits = [n for n in ast.walk(fn) if isinstance(n, ast.For) and isinstance(n.target, ast.Name) and n.target.id == 'mol1'
+            and isinstance(n.iter, ast.Name) and n.iter.id == 'products']
     if len(hits) != 1:
         raise Unsupported('GenerateRxnNet: the statement `for mol1 in products:` was not found exactly once (contract out of date)')
     return m, fn, hits[0]
@@ -130,6 +133,107 @@ def u_update(I, sizes):
     return {'inputs': {}}
 
 
+def replay_seeds(model, state, ob):
+    from rdkit import Chem
+    from pgradd.RDkitWrapper.GenRxnNet import GenerateRxnNet
+    from . import real
+    with real.quiet():
+        smis = [Chem.MolToSmiles(m) for m in GenerateRxnNet(['CC', 'CC'], ['[C:1][H:2]>>[C:1].[H:2]'])]
+    dup = sorted(set(x for x in smis if smis.count(x) > 1))
+    return {'failed': bool(dup), 'input': "GenerateRxnNet(['CC', 'CC'], ['[C:1][H:2]>>[C:1].[H:2]'])", 'observed': smis, 'expected': 'no species twice',
+            'script': "from rdkit import Chem\nfrom pgradd.RDkitWrapper.GenRxnNet import GenerateRxnNet\nprint([Chem.MolToSmiles(m) for m in GenerateRxnNet(['CC', 'CC'], ['[C:1][H:2]>>[C:1].[H:2]'])])\n"}
+
+
+def _species_world(I, n):
+    ctx = I.ctx
+    W_ = I.world
+    ids = iter(range(1, 30))
+    sp = [Obj(SpCls, {'id': z3.IntVal(next(ids))}, 'param') for _ in range(n)]
+    MT = 'MatchTuple'
+    W_.abstract[MT] = {}
+    orig_len = W_.builtins['len']
+    W_.builtins = dict(W_.builtins)
+    W_.builtins['len'] = Builtin('len', lambda I_, a, k: a[0].fields['len'] if isinstance(a[0], Obj) and a[0].cls.name == MT else orig_len.fn(I_, a, k))
+    idl = [s_.fields['id'] for s_ in sp]
+    for a in idl:
+        ctx.assume(iso(a, a))
+        for b in idl:
+            ctx.assume(iso(a, b) == iso(b, a))
+            for c in idl:
+                ctx.assume(z3.Implies(z3.And(iso(a, b), iso(b, c)), iso(a, c)))
+    return sp
+
+
+def _exec_stmts(I, stmts, env, what):
+    try:
+        for st in stmts:
+            I.exec(st, env)
+        return Outcome('return', None)
+    except PyExc as e:
+        if e.obj.cls.name in ('NameError', 'UnboundLocalError'):
+            raise Unsupported('extracted %s reads a variable defined outside it (%s)' % (what, e.obj.fields.get('args', '')))
+        return Outcome('raise', e.obj)
+
+
+def u_seeds(nseeds):
+    """the statement that puts the seeds on the work list: establishes the invariant (no species twice) for ANY seed list,
+    drops nothing but duplicates, keeps the order of first occurrence"""
+    def run(I):
+        ctx = I.ctx
+        m, c, fn = source.find_function(GEN, 'GenerateRxnNet')
+        hits = [n for n in ast.walk(fn) if isinstance(n, ast.For) and isinstance(n.target, ast.Name) and isinstance(n.iter, ast.Name) and n.iter.id == 'initial_reactant'
+                and any(isinstance(x, ast.Attribute) and x.attr in ('append', 'insert') for x in ast.walk(n))]
+        inits = [n for n in fn.body if isinstance(n, ast.Assign) and len(n.targets) == 1 and isinstance(n.targets[0], ast.Name) and n.targets[0].id == 'unprocessed']
+        if len(inits) != 1:
+            raise Unsupported('GenerateRxnNet: `unprocessed = ...` was not found exactly once at the top level (contract out of date)')
+        seeds = _species_world(I, nseeds)
+        env = Env({'initial_reactant': list(seeds)}, Func(fn, m, None, None, 'GenerateRxnNet'), None, m, set())
+        pos = fn.body.index(inits[0])
+        stmts = [inits[0]] + [h for h in hits if h in fn.body and fn.body.index(h) == pos + 1]
+        out = _exec_stmts(I, stmts, env, 'seed statements')
+        pid = lambda l: [s_.fields['id'] for s_ in l]
+
+        def posts(_):
+            un = env.local['unprocessed']
+            if not isinstance(un, list) or not all(isinstance(x, Obj) and x.cls is SpCls for x in un):
+                return [('the work list is a list of species', z3.BoolVal(False))]
+            wl = pid(un)
+            return [('the initial work list holds no species twice (the loop invariant holds on entry, whatever seeds are given)',
+                     z3.And([z3.Not(iso(wl[i], wl[j])) for i in range(len(wl)) for j in range(i)]) if len(wl) > 1 else z3.BoolVal(True)),
+                    ('every seed is (isomorphic to) a member of the initial work list', z3.And([z3.Or([iso(p, w) for w in wl]) if wl else z3.BoolVal(False) for p in pid(seeds)])),
+                    ('the work list holds seeds only, in the order given', z3.BoolVal([x for x in seeds if any(x is y for y in un)] == un))]
+        check_outcome(I, out, raises={}, returns=posts, site='GenerateRxnNet: seeds')
+        return {'inputs': {}}
+    return run
+
+
+def u_pop(I):
+    """the three statements that move the next species from `unprocessed` to `processed`: nothing is lost or duplicated"""
+    ctx = I.ctx
+    m, c, fn = source.find_function(GEN, 'GenerateRxnNet')
+    loops_ = [n for n in fn.body if isinstance(n, ast.While) and isinstance(n.test, ast.Name) and n.test.id == 'unprocessed']
+    if len(loops_) != 1:
+        raise Unsupported('GenerateRxnNet: `while unprocessed:` was not found exactly once (contract out of date)')
+    head = []
+    for st in loops_[0].body:
+        if isinstance(st, ast.For):
+            break
+        head.append(st)
+    sp = _species_world(I, 4)
+    un, pr = [sp[0], sp[1]], [sp[2], sp[3]]
+    if ctx.choose([True, True], 'one or two species waiting') == 0:
+        un = [sp[0]]
+    un0, pr0 = list(un), list(pr)
+    env = Env({'unprocessed': un, 'processed': pr}, Func(fn, m, None, None, 'GenerateRxnNet'), None, m, set())
+    out = _exec_stmts(I, head, env, 'loop head')
+    check_outcome(I, out, raises={}, returns=lambda _: [
+        ('the species taken is the first waiting one and it is now processed', z3.BoolVal(env.local.get('reactant0') is un0[0] and any(x is un0[0] for x in env.local['processed']))),
+        ('nothing is lost or listed twice: processed ++ unprocessed is a rearrangement of what it was',
+         z3.BoolVal(sorted(id(x) for x in env.local['processed'] + env.local['unprocessed']) == sorted(id(x) for x in un0 + pr0))),
+        ('the waiting list got shorter (termination measure of a finite closure)', z3.BoolVal(len(env.local['unprocessed']) == len(un0) - 1))], site='GenerateRxnNet: loop head')
+    return {'inputs': {}}
+
+
 def replay_update(model, state, ob):
     from rdkit import Chem
     from pgradd.RDkitWrapper.GenRxnNet import GenerateRxnNet
@@ -144,6 +248,8 @@ def replay_update(model, state, ob):
 
 SIZES = [(1, 1, 1), (2, 1, 1), (1, 2, 1), (2, 1, 0), (1, 1, 2), (2, 2, 1)]
 UNITS = [Unit('GenerateRxnNet[work-list update %d products, %d processed, %d unprocessed]' % s_, (GEN, 'GenerateRxnNet'), u_update_sized(s_), replay_update) for s_ in SIZES]
+UNITS += [Unit('GenerateRxnNet[seeds -> work list, %d seeds]' % k, (GEN, 'GenerateRxnNet'), u_seeds(k), replay_seeds) for k in (1, 2, 3)]
+UNITS += [Unit('GenerateRxnNet[loop head: next species]', (GEN, 'GenerateRxnNet'), u_pop)]
 
 from . import standins
 STANDINS = [standins.c17_closure]
